@@ -1,5 +1,7 @@
 import SageModel.Model.C14
 import SageModel.Lemmas.C14XQ
+import SageModel.Lemmas.C14RQ
+import SageModel.Lemmas.C14Lift
 import Mathlib.Algebra.Order.Field.Rat
 import Mathlib.Tactic.Linarith
 import Mathlib.Tactic.Positivity
@@ -772,5 +774,565 @@ example : ∃ (e : Estimator XQ) (m st : Rat),
 
 /-- non-vacuity of `finite_bins`/`bayes_finite`: a concrete finite Bayes ratio at `XQ` -/
 example : bayes (some (1/2) : XQ) (some 1) (some 3) = some (1/4) := by decide +kernel
+
+/-- **C14.build_length** — the estimator has exactly the requested number of bins (`Builder::default()`:
+    1000), and it exists iff there is a score and a bin -/
+theorem build_length (Fq : Fns Rat) (scores : List Rat) (decoys : List Bool) (nbins : Nat) (adj : Rat)
+    (mono : Bool) (e : Estimator Rat) (h : build Fq scores decoys nbins adj mono = some e) :
+    e.bins.length = nbins ∧ 0 < nbins := by
+  unfold build at h
+  simp only at h
+  split at h
+  · split at h
+    · simp at h
+    · next hn =>
+      have hpos : 0 < nbins := Nat.pos_of_ne_zero hn
+      cases mono with
+      | false =>
+        simp only [Bool.false_eq_true, if_false, Option.some.injEq] at h
+        subst h
+        exact ⟨by simp [rawBins], hpos⟩
+      | true =>
+        simp only [if_true] at h
+        split at h
+        · next bins hb =>
+          simp only [Option.some.injEq] at h
+          subst h
+          obtain ⟨hl, _⟩ := envelope_spec _ _ hb
+          exact ⟨by rw [hl]; simp [rawBins], hpos⟩
+        · simp at h
+  · simp at h
+
+theorem buildDefault_length (Fq : Fns Rat) (scores : List Rat) (decoys : List Bool) (e : Estimator Rat)
+    (h : buildDefault Fq scores decoys = some e) : e.bins.length = 1000 :=
+  (build_length Fq scores decoys defaultBins _ true e h).1
+
+/-! ## the code's KDE is the textbook one -/
+
+/-- **C14.bandwidth_eq_spec** — `Kde::new` uses the rule-of-thumb bandwidth `σ·(4/(3n))^(1/5)` (Silverman
+    factor 4/3, exponent 1/5, population σ), times the caller's factor -/
+theorem bandwidth_eq_spec (Fq : Fns Rat) (l : List Rat) (adj : Rat) :
+    (Kde.new Fq l adj).bandwidth = specBandwidth Fq l adj := by
+  unfold Kde.new specBandwidth
+  simp only [ofNat_rat]
+  rw [div_div, mul_comm]
+
+theorem foldl_add_eq (g : Rat → Rat) (l : List Rat) (a : Rat) :
+    l.foldl (fun acc x => acc + g x) a = a + (l.map g).foldr (fun u v => u + v) 0 := by
+  induction l generalizing a with
+  | nil => simp
+  | cons y ys ih => simp only [List.foldl_cons, List.map_cons, List.foldr_cons]; rw [ih]; ring
+
+/-- **C14.pdf_eq_spec** — `Kde::pdf` is the Gaussian kernel density `1/(n·h·√(2π)) · Σ exp(−((x−xᵢ)/h)²/2)` -/
+theorem pdf_eq_spec (Fq : Fns Rat) (l : List Rat) (adj x : Rat) :
+    (Kde.new Fq l adj).pdf Fq x = specDensity Fq l (Kde.new Fq l adj).bandwidth x := by
+  unfold Kde.pdf Kde.ksum specDensity
+  have hs : (Kde.new Fq l adj).sample = l := rfl
+  have hc : (Kde.new Fq l adj).constant =
+      (ofNat l.length : Rat) * (Kde.new Fq l adj).bandwidth * Fq.sqrt (ofNat 2 * Fq.pi) := by
+    show Fq.sqrt (ofNat 2 * Fq.pi) * (Kde.new Fq l adj).bandwidth * ofNat l.length = _
+    ring
+  rw [hs, hc, foldl_add_eq]
+  simp only [ofNat_rat, Nat.cast_zero, zero_add]
+  congr 2
+  apply List.map_congr_left
+  intro xi _
+  unfold kernel sq
+  simp only [ofNat_rat]
+  congr 1
+  push_cast
+  ring
+
+/-! ## exactly when a bin is non-finite -/
+
+theorem ssd_acc (m : Rat) (l : List Rat) (a : Rat) (ha : 0 ≤ a) :
+    a ≤ l.foldl (fun acc x => acc + sq (x - m)) a ∧
+    (l.foldl (fun acc x => acc + sq (x - m)) a = 0 ↔ a = 0 ∧ ∀ x ∈ l, x = m) := by
+  induction l generalizing a with
+  | nil => simp
+  | cons y ys ih =>
+    have hsq : 0 ≤ sq (y - m) := by unfold sq; exact mul_self_nonneg _
+    obtain ⟨h1, h2⟩ := ih (a + sq (y - m)) (by linarith)
+    simp only [List.foldl_cons]
+    refine ⟨by linarith, ?_⟩
+    rw [h2]
+    constructor
+    · rintro ⟨h0, hall⟩
+      have ha0 : a = 0 := by linarith
+      have hs0 : sq (y - m) = 0 := by linarith
+      have hy : y = m := by
+        unfold sq at hs0
+        have := mul_self_eq_zero.mp hs0
+        linarith
+      exact ⟨ha0, by intro x hx; rcases List.mem_cons.mp hx with rfl | hx; exact hy; exact hall x hx⟩
+    · rintro ⟨h0, hall⟩
+      have hy : y = m := hall y (by simp)
+      refine ⟨by rw [h0, hy]; simp [sq], fun x hx => hall x (List.mem_cons_of_mem _ hx)⟩
+
+/-- the sum of squared deviations vanishes exactly when every score equals `m` -/
+theorem ssd_zero_iff (m : Rat) (l : List Rat) : ssd m l = 0 ↔ ∀ x ∈ l, x = m := by
+  unfold ssd
+  have := (ssd_acc m l ((0 : Nat) : Rat) (by simp)).2
+  simpa using this
+
+theorem ssd_nonneg (m : Rat) (l : List Rat) : 0 ≤ ssd m l := by
+  unfold ssd
+  have := (ssd_acc m l ((0 : Nat) : Rat) (by simp)).1
+  simpa using this
+
+theorem sum_const (c : Rat) (l : List Rat) (h : ∀ x ∈ l, x = c) : sum l = (l.length : Rat) * c := by
+  unfold sum
+  have : ∀ a : Rat, l.foldl (fun acc x => acc + x) a = a + (l.length : Rat) * c := by
+    induction l with
+    | nil => intro a; simp
+    | cons y ys ih =>
+      intro a
+      have hy : y = c := h y (by simp)
+      simp only [List.foldl_cons, List.length_cons]
+      rw [ih (fun x hx => h x (List.mem_cons_of_mem _ hx)), hy]
+      push_cast; ring
+  rw [this]; simp
+
+theorem mean_const (c : Rat) (l : List Rat) (hl : l ≠ []) (h : ∀ x ∈ l, x = c) : mean l = c := by
+  unfold mean
+  rw [sum_const c l h]
+  have : ((l.length : Nat) : Rat) ≠ 0 := by
+    have := List.length_pos_iff.mpr hl
+    exact_mod_cast (ne_of_gt this)
+  simp only [ofNat_rat]
+  field_simp
+
+/-- what the theorems need of the transcendental parameters at `Rat` -/
+structure FnsOk (Fq : Fns Rat) : Prop where
+  exp_nonneg : ∀ x, 0 ≤ Fq.exp x
+  sqrt_nonneg : ∀ x, 0 ≤ x → 0 ≤ Fq.sqrt x
+  sqrt_zero : ∀ x, 0 ≤ x → (Fq.sqrt x = 0 ↔ x = 0)
+  powf_pos : ∀ a b, 0 < a → 0 < Fq.powf a b
+  pi_pos : 0 < Fq.pi
+
+/-- **C14.bandwidth_zero_iff** — the rule-of-thumb bandwidth `σ·(4/(3n))^(1/5)·adj` of a non-empty class is
+    `0` exactly when all its scores are equal (a single score included) — for any `sqrt` that vanishes
+    only at 0 and any positive `powf`. -/
+theorem bandwidth_zero_iff (Fq : Fns Rat) (ok : FnsOk Fq) (l : List Rat) (hl : l ≠ []) (adj : Rat)
+    (hadj : adj ≠ 0) :
+    (Kde.new Fq l adj).bandwidth = 0 ↔ ∃ c, ∀ x ∈ l, x = c := by
+  have hn : (0 : Rat) < ((l.length : Nat) : Rat) := by
+    have := List.length_pos_iff.mpr hl
+    exact_mod_cast this
+  have hq : 0 ≤ ssd (mean l) l / ((l.length : Nat) : Rat) := div_nonneg (ssd_nonneg _ _) hn.le
+  have hpow : 0 < Fq.powf ((ofNat 4 : Rat) / ofNat 3 / ofNat l.length) (ofNat 1 / ofNat 5) := by
+    apply ok.powf_pos
+    simp only [ofNat_rat]
+    positivity
+  unfold Kde.new
+  simp only
+  rw [mul_eq_zero, mul_eq_zero]
+  constructor
+  · rintro ((h | h) | h)
+    · unfold std at h
+      simp only [ofNat_rat] at h
+      have := (ok.sqrt_zero _ hq).mp h
+      have hs : ssd (mean l) l = 0 := by
+        rcases div_eq_zero_iff.mp this with h' | h'
+        · exact h'
+        · exact absurd h' (ne_of_gt hn)
+      exact ⟨mean l, (ssd_zero_iff _ _).mp hs⟩
+    · exact absurd h (ne_of_gt hpow)
+    · exact absurd h hadj
+  · rintro ⟨c, hc⟩
+    left; left
+    unfold std
+    simp only [ofNat_rat]
+    have hm : mean l = c := mean_const c l hl hc
+    have hs : ssd (mean l) l = 0 := (ssd_zero_iff _ _).mpr (by rw [hm]; exact hc)
+    rw [hs]
+    simp only [zero_div]
+    exact (ok.sqrt_zero 0 (le_refl _)).mpr rfl
+
+/-- the normalising constant `√(2π)·h·n` of a non-empty class vanishes exactly when the bandwidth does,
+    and is non-negative when the bandwidth is -/
+theorem constant_zero_iff (Fq : Fns Rat) (ok : FnsOk Fq) (l : List Rat) (hl : l ≠ []) (adj : Rat) :
+    ((Kde.new Fq l adj).constant = 0 ↔ (Kde.new Fq l adj).bandwidth = 0) ∧
+    (0 ≤ (Kde.new Fq l adj).bandwidth → 0 ≤ (Kde.new Fq l adj).constant) := by
+  have hn : (0 : Rat) < ((l.length : Nat) : Rat) := by
+    have := List.length_pos_iff.mpr hl
+    exact_mod_cast this
+  have h2pi : 0 < Fq.sqrt (ofNat 2 * Fq.pi) := by
+    have hpos : (0 : Rat) < ofNat 2 * Fq.pi := by
+      simp only [ofNat_rat]; exact mul_pos (by norm_num) ok.pi_pos
+    have h1 := ok.sqrt_nonneg _ hpos.le
+    have h2 : Fq.sqrt (ofNat 2 * Fq.pi) ≠ 0 := fun h => (ne_of_gt hpos) ((ok.sqrt_zero _ hpos.le).mp h)
+    exact lt_of_le_of_ne h1 (Ne.symm h2)
+  have hc : (Kde.new Fq l adj).constant =
+      Fq.sqrt (ofNat 2 * Fq.pi) * (Kde.new Fq l adj).bandwidth * ((l.length : Nat) : Rat) := rfl
+  rw [hc]
+  constructor
+  · constructor
+    · intro h
+      rcases mul_eq_zero.mp h with h' | h'
+      · rcases mul_eq_zero.mp h' with h'' | h''
+        · exact absurd h'' (ne_of_gt h2pi)
+        · exact h''
+      · exact absurd h' (ne_of_gt hn)
+    · intro h; rw [h]; ring
+  · intro h; positivity
+
+theorem ksum_acc (Fq : Fns Rat) (ok : FnsOk Fq) (h x : Rat) (l : List Rat) (a : Rat) (ha : 0 ≤ a) :
+    a ≤ l.foldl (fun acc xi => acc + kernel Fq ((x - xi) / h)) a ∧
+    (l.foldl (fun acc xi => acc + kernel Fq ((x - xi) / h)) a = 0 ↔
+      a = 0 ∧ ∀ xi ∈ l, kernel Fq ((x - xi) / h) = 0) := by
+  induction l generalizing a with
+  | nil => simp
+  | cons y ys ih =>
+    have hk : 0 ≤ kernel Fq ((x - y) / h) := ok.exp_nonneg _
+    obtain ⟨h1, h2⟩ := ih (a + kernel Fq ((x - y) / h)) (by linarith)
+    simp only [List.foldl_cons]
+    refine ⟨by linarith, ?_⟩
+    rw [h2]
+    constructor
+    · rintro ⟨h0, hall⟩
+      refine ⟨by linarith, ?_⟩
+      intro xi hxi
+      rcases List.mem_cons.mp hxi with rfl | hxi
+      · linarith
+      · exact hall xi hxi
+    · rintro ⟨h0, hall⟩
+      have := hall y (by simp)
+      exact ⟨by rw [h0, this]; simp, fun xi hxi => hall xi (List.mem_cons_of_mem _ hxi)⟩
+
+/-- the kernel sum is `≥ 0`, and `0` exactly when every kernel value is (underflow) -/
+theorem ksum_zero_iff (Fq : Fns Rat) (ok : FnsOk Fq) (k : Kde Rat) (x : Rat) :
+    0 ≤ k.ksum Fq x ∧ (k.ksum Fq x = 0 ↔ ∀ xi ∈ k.sample, kernel Fq ((x - xi) / k.bandwidth) = 0) := by
+  unfold Kde.ksum
+  have := ksum_acc Fq ok k.bandwidth x k.sample ((0 : Nat) : Rat) (by simp)
+  simpa using this
+
+/-- **C14.raw_bin_nonfinite_iff** — the model run at `XQ` (`none` = NaN/±∞; `exp` may underflow to 0 but
+    is otherwise finite): the raw Bayes ratio at a finite grid point `x`, for classes `d`, `t` (both
+    non-empty) with finite bandwidths/constants (constant `= 0` iff bandwidth `= 0`, as `Kde::new`
+    makes them) and `0 < π < 1`, is NON-FINITE **if and only if** the decoy bandwidth is 0, or the
+    target bandwidth is 0, or every kernel value of BOTH classes at `x` is 0; in every other case it is
+    finite and in `[0,1]`. These are exactly the two known findings (zero-variance class via
+    `bandwidth_zero_iff`; density underflow) — the model has no other source of a NaN bin. -/
+theorem raw_bin_nonfinite_iff (F : Fns XQ) (Fq : Fns Rat) (L : Lifts F Fq) (ok : FnsOk Fq)
+    (d t : List Rat) (hd : d ≠ []) (ht : t ≠ []) (hdb cd htb ct p x : Rat)
+    (hcd : cd = 0 ↔ hdb = 0) (hct : ct = 0 ↔ htb = 0) (hcd0 : 0 ≤ cd) (hct0 : 0 ≤ ct)
+    (hp0 : 0 < p) (hp1 : p < 1) :
+    let kd : Kde XQ := { sample := d.map some, bandwidth := some hdb, constant := some cd }
+    let kt : Kde XQ := { sample := t.map some, bandwidth := some htb, constant := some ct }
+    (bayes (some p) (kd.pdf F (some x)) (kt.pdf F (some x)) = none ↔
+      hdb = 0 ∨ htb = 0 ∨
+        ((∀ xi ∈ d, kernel Fq ((x - xi) / hdb) = 0) ∧ (∀ xi ∈ t, kernel Fq ((x - xi) / htb) = 0))) ∧
+    (bayes (some p) (kd.pdf F (some x)) (kt.pdf F (some x)) ≠ none →
+      Fin01 (bayes (some p) (kd.pdf F (some x)) (kt.pdf F (some x)))) := by
+  intro kd kt
+  let kdq : Kde Rat := { sample := d, bandwidth := hdb, constant := cd }
+  let ktq : Kde Rat := { sample := t, bandwidth := htb, constant := ct }
+  have hpd : kd.pdf F (some x) = if hdb = 0 then none else some (kdq.ksum Fq x / cd) := by
+    unfold Kde.pdf
+    rw [ksum_lift F Fq L d hdb x (some cd) cd]
+    by_cases h : hdb = 0
+    · simp [h, hd]
+    · have hc : cd ≠ 0 := fun hc => h (hcd.mp hc)
+      simp only [h, false_and, if_false]
+      rw [xq_div _ _ hc]
+  have hpt : kt.pdf F (some x) = if htb = 0 then none else some (ktq.ksum Fq x / ct) := by
+    unfold Kde.pdf
+    rw [ksum_lift F Fq L t htb x (some ct) ct]
+    by_cases h : htb = 0
+    · simp [h, ht]
+    · have hc : ct ≠ 0 := fun hc => h (hct.mp hc)
+      simp only [h, false_and, if_false]
+      rw [xq_div _ _ hc]
+  rw [hpd, hpt]
+  by_cases h1 : hdb = 0
+  · simp [h1, bayes]
+  by_cases h2 : htb = 0
+  · simp only [h1, h2, if_true, if_false]
+    simp [bayes]
+  have hcdp : 0 < cd := lt_of_le_of_ne hcd0 (fun h => h1 (hcd.mp h.symm))
+  have hctp : 0 < ct := lt_of_le_of_ne hct0 (fun h => h2 (hct.mp h.symm))
+  obtain ⟨hsd0, hsdz⟩ := ksum_zero_iff Fq ok kdq x
+  obtain ⟨hst0, hstz⟩ := ksum_zero_iff Fq ok ktq x
+  set a := kdq.ksum Fq x / cd with ha
+  set b := ktq.ksum Fq x / ct with hb
+  have ha0 : 0 ≤ a := div_nonneg hsd0 hcdp.le
+  have hb0 : 0 ≤ b := div_nonneg hst0 hctp.le
+  have haz : a = 0 ↔ ∀ xi ∈ d, kernel Fq ((x - xi) / hdb) = 0 := by
+    rw [ha, div_eq_zero_iff]
+    constructor
+    · rintro (h | h)
+      · exact hsdz.mp h
+      · exact absurd h (ne_of_gt hcdp)
+    · intro h; exact Or.inl (hsdz.mpr h)
+  have hbz : b = 0 ↔ ∀ xi ∈ t, kernel Fq ((x - xi) / htb) = 0 := by
+    rw [hb, div_eq_zero_iff]
+    constructor
+    · rintro (h | h)
+      · exact hstz.mp h
+      · exact absurd h (ne_of_gt hctp)
+    · intro h; exact Or.inl (hstz.mpr h)
+  simp only [h1, h2, if_false, false_or]
+  have hbay : bayes (some p : XQ) (some a) (some b) =
+      if b * (1 - p) + a * p = 0 then none else some (a * p / (b * (1 - p) + a * p)) := by
+    unfold bayes
+    simp only [xq_ofNat, xq_mul, xq_sub, xq_add, Nat.cast_one]
+    rw [xq_div_eq]
+  have hden : b * (1 - p) + a * p = 0 ↔ a = 0 ∧ b = 0 := by
+    constructor
+    · intro h
+      have h1' : 0 ≤ b * (1 - p) := mul_nonneg hb0 (by linarith)
+      have h2' : 0 ≤ a * p := mul_nonneg ha0 hp0.le
+      have hb' : b * (1 - p) = 0 := by linarith
+      have ha' : a * p = 0 := by linarith
+      refine ⟨?_, ?_⟩
+      · rcases mul_eq_zero.mp ha' with h | h
+        · exact h
+        · exact absurd h (ne_of_gt hp0)
+      · rcases mul_eq_zero.mp hb' with h | h
+        · exact h
+        · exact absurd h (by linarith)
+    · rintro ⟨h, h'⟩; rw [h, h']; ring
+  rw [hbay]
+  constructor
+  · constructor
+    · intro h
+      by_cases hz : b * (1 - p) + a * p = 0
+      · obtain ⟨hA, hB⟩ := hden.mp hz
+        exact ⟨haz.mp hA, hbz.mp hB⟩
+      · simp [hz] at h
+    · rintro ⟨hA, hB⟩
+      have := hden.mpr ⟨haz.mpr hA, hbz.mpr hB⟩
+      simp [this]
+  · intro h
+    by_cases hz : b * (1 - p) + a * p = 0
+    · simp [hz] at h
+    · simp only [hz, if_false]
+      have hpos : 0 < b * (1 - p) + a * p := by
+        have h1' : 0 ≤ b * (1 - p) := mul_nonneg hb0 (by linarith)
+        have h2' : 0 ≤ a * p := mul_nonneg ha0 hp0.le
+        exact lt_of_le_of_ne (by linarith) (Ne.symm hz)
+      refine ⟨_, rfl, div_nonneg (mul_nonneg ha0 hp0.le) hpos.le, ?_⟩
+      rw [div_le_one hpos]
+      have h1' : 0 ≤ b * (1 - p) := mul_nonneg hb0 (by linarith)
+      linarith
+
+theorem classOf_lengths (scores : List Rat) (decoys : List Bool) :
+    (classOf true scores decoys).length + (classOf false scores decoys).length ≤ scores.length := by
+  unfold classOf
+  simp only [List.length_map]
+  have key : ∀ l : List (Rat × Bool),
+      (l.filter (fun p => p.2 == true)).length + (l.filter (fun p => p.2 == false)).length = l.length := by
+    intro l
+    induction l with
+    | nil => rfl
+    | cons a as ih =>
+      rcases a with ⟨v, b⟩
+      cases b <;> simp at ih ⊢ <;> omega
+  rw [key]
+  simp [List.length_zip]
+
+/-- **C14.bin_nonfinite_iff** — for the classes `Builder::build` forms from finite scores (both present),
+    any positive bandwidth factor and any finite grid point `x`: the raw Bayes ratio is non-finite
+    **iff** all decoy scores are equal, or all target scores are equal, or every kernel value of both
+    classes at `x` underflows to 0 — i.e. exactly the two recorded findings, nothing else. -/
+theorem bin_nonfinite_iff (F : Fns XQ) (Fq : Fns Rat) (L : Lifts F Fq) (ok : FnsOk Fq)
+    (scores : List Rat) (decoys : List Bool) (adj : Rat) (hadj : 0 < adj)
+    (hd : classOf true scores decoys ≠ []) (ht : classOf false scores decoys ≠ []) (x : Rat) :
+    let d := classOf true scores decoys
+    let t := classOf false scores decoys
+    let π : XQ := ofNat (classOf true (scores.map some) decoys).length / ofNat (scores.map some).length
+    let kd := Kde.new F (classOf true (scores.map some) decoys) (some adj)
+    let kt := Kde.new F (classOf false (scores.map some) decoys) (some adj)
+    bayes π (kd.pdf F (some x)) (kt.pdf F (some x)) = none ↔
+      (∃ c, ∀ s ∈ d, s = c) ∨ (∃ c, ∀ s ∈ t, s = c) ∨
+        ((∀ xi ∈ d, kernel Fq ((x - xi) / (Kde.new Fq d adj).bandwidth) = 0) ∧
+         (∀ xi ∈ t, kernel Fq ((x - xi) / (Kde.new Fq t adj).bandwidth) = 0)) := by
+  intro d t π kd kt
+  have hlen := classOf_lengths scores decoys
+  have hdl : 0 < d.length := List.length_pos_iff.mpr hd
+  have htl : 0 < t.length := List.length_pos_iff.mpr ht
+  have hsl : 0 < scores.length := by
+    have h1 : d.length + t.length ≤ scores.length := hlen
+    omega
+  have hπ : π = some ((d.length : Rat) / (scores.length : Rat)) := by
+    show (ofNat (classOf true (scores.map some) decoys).length : XQ) / ofNat (scores.map some).length = _
+    rw [classOf_map]
+    simp only [List.length_map, xq_ofNat]
+    have : ((scores.length : Nat) : Rat) ≠ 0 := by exact_mod_cast (ne_of_gt hsl)
+    rw [xq_div _ _ this]
+  have hp0 : (0 : Rat) < (d.length : Rat) / (scores.length : Rat) := by
+    apply div_pos <;> exact_mod_cast ‹_›
+  have hp1 : (d.length : Rat) / (scores.length : Rat) < 1 := by
+    have hs : (0 : Rat) < (scores.length : Rat) := by exact_mod_cast hsl
+    rw [div_lt_one hs]
+    have h1 : d.length + t.length ≤ scores.length := hlen
+    have : d.length < scores.length := by omega
+    exact_mod_cast this
+  have bw_nonneg : ∀ l : List Rat, l ≠ [] → 0 ≤ (Kde.new Fq l adj).bandwidth := by
+    intro l hl
+    have hn : (0 : Rat) < ((l.length : Nat) : Rat) := by
+      have := List.length_pos_iff.mpr hl
+      exact_mod_cast this
+    unfold Kde.new
+    simp only
+    apply mul_nonneg _ hadj.le
+    apply mul_nonneg
+    · unfold std
+      simp only [ofNat_rat]
+      exact ok.sqrt_nonneg _ (div_nonneg (ssd_nonneg _ _) hn.le)
+    · apply le_of_lt
+      apply ok.powf_pos
+      simp only [ofNat_rat]
+      positivity
+  have hkd : kd = ⟨d.map some, some (Kde.new Fq d adj).bandwidth, some (Kde.new Fq d adj).constant⟩ := by
+    show Kde.new F (classOf true (scores.map some) decoys) (some adj) = _
+    rw [classOf_map]; exact kde_new_lift F Fq L d hd adj
+  have hkt : kt = ⟨t.map some, some (Kde.new Fq t adj).bandwidth, some (Kde.new Fq t adj).constant⟩ := by
+    show Kde.new F (classOf false (scores.map some) decoys) (some adj) = _
+    rw [classOf_map]; exact kde_new_lift F Fq L t ht adj
+  obtain ⟨hcd, hcd0⟩ := constant_zero_iff Fq ok d hd adj
+  obtain ⟨hct, hct0⟩ := constant_zero_iff Fq ok t ht adj
+  have main := (raw_bin_nonfinite_iff F Fq L ok d t hd ht _ _ _ _ _ x hcd hct
+    (hcd0 (bw_nonneg d hd)) (hct0 (bw_nonneg t ht)) hp0 hp1).1
+  rw [hπ, hkd, hkt]
+  rw [main, bandwidth_zero_iff Fq ok d hd adj (ne_of_gt hadj), bandwidth_zero_iff Fq ok t ht adj (ne_of_gt hadj)]
+
+/-- toy parameters at `Rat` for the non-vacuity examples: `exp x = 1` above `-8`, `0` below (underflow),
+    `sqrt = id` on the values used, `powf = 1`, `π = 3` -/
+def toyQ : Fns Rat :=
+  { exp := fun x => if x < -8 then 0 else 1, sqrt := fun x => x, powf := fun _ _ => 1, pi := 3 }
+
+/-- non-vacuity (zero-variance side): one decoy ⇒ bandwidth 0 -/
+example : (Kde.new toyQ [5] 1).bandwidth = 0 := by decide +kernel
+/-- non-vacuity (spread class): bandwidth `≠ 0` -/
+example : (Kde.new toyQ [0, 2] 1).bandwidth = 1 := by decide +kernel
+/-- non-vacuity (underflow side): decoys `0,2`, targets `100,102`, bandwidth 1: at `x = 50` every kernel
+    argument is below `-8`, all kernel values are 0 -/
+example : (∀ xi ∈ [(0:Rat), 2], kernel toyQ ((50 - xi) / 1) = 0) ∧ (∀ xi ∈ [(100:Rat), 102], kernel toyQ ((50 - xi) / 1) = 0) := by
+  decide +kernel
+
+/-! ## under rounding: the same model run at `RQ rnd` (every operation rounded by `rnd`) -/
+
+/-- **C14.bayes_range_rounded** — the code's Bayes ratio `d/(t+d)`, `d = fd·π`, `t = ft·(1−π)`, with
+    EVERY operation rounded by an arbitrary monotone rounding that fixes 0 and 1 and is idempotent,
+    stays in `[0,1]` (non-negative densities, `π` a probability, rounded denominator positive):
+    `t ≥ 0` rounds `t + d` to at least `d`, so the quotient is at most 1 before and after rounding. -/
+theorem bayes_range_rounded {rnd : Rat → Rat} (R : Rounding rnd) (π fd ft : RQ rnd)
+    (hπ0 : 0 ≤ π.val) (hπ1 : π.val ≤ 1) (hd : 0 ≤ fd.val) (ht : 0 ≤ ft.val)
+    (hpos : 0 < (ft * (ofNat 1 - π) + fd * π).val) :
+    0 ≤ (bayes π fd ft).val ∧ (bayes π fd ft).val ≤ 1 := by
+  unfold bayes
+  simp only [RQ.div_val, RQ.add_val, RQ.mul_val, RQ.sub_val, RQ.ofNat_val, Nat.cast_one, R.one] at hpos ⊢
+  set d := rnd (fd.val * π.val) with hdd
+  set t := rnd (ft.val * rnd (1 - π.val)) with htt
+  have hd0 : 0 ≤ d := R.nonneg (mul_nonneg hd hπ0)
+  have hom : 0 ≤ rnd (1 - π.val) := R.nonneg (by linarith)
+  have ht0 : 0 ≤ t := R.nonneg (mul_nonneg ht hom)
+  have hds : d ≤ rnd (t + d) := by
+    have := R.mono d (t + d) (by linarith)
+    rwa [hdd, R.idem, ← hdd] at this
+  constructor
+  · exact R.nonneg (div_nonneg hd0 hpos.le)
+  · apply R.le_one
+    rw [div_le_one hpos]; exact hds
+
+/-- the rounded interpolation `rnd (l + rnd (rnd (u − l) · w))` with weight `w ∈ [0,1]` between two
+    values of `[0,1]` (`l` representable): never negative; never above `l` when `u ≤ l` -/
+theorem interp_core_rounded {rnd : Rat → Rat} (R : Rounding rnd) (l u w : Rat)
+    (hl : rnd l = l) (hl0 : 0 ≤ l) (hu0 : 0 ≤ u) (hw0 : 0 ≤ w) (hw1 : w ≤ 1) :
+    0 ≤ rnd (l + rnd (rnd (u - l) * w)) ∧ (u ≤ l → rnd (l + rnd (rnd (u - l) * w)) ≤ l) := by
+  have hnegl : rnd (-l) = -l := by rw [R.odd, hl]
+  constructor
+  · apply R.nonneg
+    rcases le_total l u with h | h
+    · have h1 : 0 ≤ rnd (u - l) := R.nonneg (by linarith)
+      have h2 : 0 ≤ rnd (rnd (u - l) * w) := R.nonneg (mul_nonneg h1 hw0)
+      linarith
+    · -- u ≤ l : -l = rnd (-l) ≤ rnd (u - l) ≤ 0, and multiplying by w ∈ [0,1] stays above -l
+      have h1 : -l ≤ rnd (u - l) := by
+        have := R.mono (-l) (u - l) (by linarith)
+        rwa [hnegl] at this
+      have h2 : rnd (u - l) ≤ 0 := R.nonpos (by linarith)
+      have h3 : -l ≤ rnd (u - l) * w := by nlinarith
+      have h4 : -l ≤ rnd (rnd (u - l) * w) := by
+        have := R.mono (-l) (rnd (u - l) * w) h3
+        rwa [hnegl] at this
+      linarith
+  · intro h
+    have h1 : rnd (u - l) ≤ 0 := R.nonpos (by linarith)
+    have h2 : rnd (rnd (u - l) * w) ≤ 0 := R.nonpos (mul_nonpos_of_nonpos_of_nonneg h1 hw0)
+    have := R.mono (l + rnd (rnd (u - l) * w)) l (by linarith)
+    rwa [hl] at this
+
+/-- **C14.posterior_range_rounded** — `posterior_error` with every operation rounded (any `Rounding`),
+    for EVERY score and whatever `min_score`/`score_step` are: if the bins are representable numbers
+    of `[0,1]`, the value is `≥ 0` (so its `log10` is never NaN); if moreover the bins never increase
+    with the index (the monotone envelope), the value is `≤` the lower bin, hence in `[0,1]`. This is
+    what the clamp of the interpolation weight buys at the level the code runs; without the clamp the
+    statement is false (the repaired defect: weight `1+ε` gave a negative value). -/
+theorem posterior_range_rounded {rnd : Rat → Rat} (R : Rounding rnd) (e : Estimator (RQ rnd)) (s : RQ rnd)
+    (hn : e.bins ≠ [])
+    (hb : ∀ b ∈ e.bins, rnd b.val = b.val ∧ 0 ≤ b.val ∧ b.val ≤ 1) :
+    ∃ v, posteriorError e s = some v ∧ 0 ≤ v.val ∧
+      ((∀ (i j : Nat) (a b : RQ rnd), i ≤ j → e.bins[i]? = some a → e.bins[j]? = some b → b.val ≤ a.val) →
+        v.val ≤ 1) := by
+  have hlen : 0 < e.bins.length := List.length_pos_iff.mpr hn
+  have h1 : binLo e s < e.bins.length := by
+    unfold binLo
+    have := min_le_left (e.bins.length - 1) (floorNat ((s - e.minScore) / e.scoreStep))
+    omega
+  have h2 : binHi e (binLo e s) < e.bins.length := by
+    unfold binHi
+    have := min_le_left (e.bins.length - 1) (binLo e s + 1)
+    omega
+  have hlohi : binLo e s ≤ binHi e (binLo e s) := by
+    unfold binHi
+    exact le_min (by omega) (Nat.le_succ _)
+  have g1 : e.bins[binLo e s]? = some e.bins[binLo e s] := List.getElem?_eq_getElem h1
+  have g2 : e.bins[binHi e (binLo e s)]? = some e.bins[binHi e (binLo e s)] := List.getElem?_eq_getElem h2
+  obtain ⟨hlr, hl0, hl1⟩ := hb _ (List.getElem_mem h1)
+  obtain ⟨_, hu0, _⟩ := hb _ (List.getElem_mem h2)
+  unfold posteriorError
+  simp only [g1, g2]
+  refine ⟨_, rfl, ?_, ?_⟩
+  · simp only [RQ.add_val, RQ.mul_val, RQ.sub_val, RQ.clamp_val]
+    refine (interp_core_rounded R _ _ _ hlr hl0 hu0 ?_ ?_).1
+    · split
+      · exact le_refl _
+      · split
+        · norm_num
+        · linarith
+    · split
+      · norm_num
+      · split
+        · exact le_refl _
+        · linarith
+  · intro hanti
+    have hul := hanti _ _ _ _ hlohi g1 g2
+    simp only [RQ.add_val, RQ.mul_val, RQ.sub_val, RQ.clamp_val]
+    refine le_trans ((interp_core_rounded R _ _ _ hlr hl0 hu0 ?_ ?_).2 hul) hl1
+    · split
+      · exact le_refl _
+      · split
+        · norm_num
+        · linarith
+    · split
+      · norm_num
+      · split
+        · exact le_refl _
+        · linarith
+
+/-- non-vacuity of the rounding theorems: `rnd8` (truncation to eighths) is a `Rounding`, and under
+    it the code's Bayes ratio of `π = 1/2`, `fd = 1/3`, `ft = 5/7` is the representable `1/4`
+    (exactly it is `7/22`) — inside `[0,1]` as `bayes_range_rounded` says. -/
+example : (bayes (⟨1/2⟩ : RQ rnd8) ⟨1/3⟩ ⟨5/7⟩).val = 1/4 := by decide +kernel
+example : 0 ≤ (bayes (⟨1/2⟩ : RQ rnd8) ⟨1/3⟩ ⟨5/7⟩).val ∧ (bayes (⟨1/2⟩ : RQ rnd8) ⟨1/3⟩ ⟨5/7⟩).val ≤ 1 :=
+  bayes_range_rounded rnd8_rounding _ _ _ (by norm_num) (by norm_num) (by norm_num) (by norm_num)
+    (by decide +kernel)
+
+/-- non-vacuity of `posterior_range_rounded`: bins `1, 1/2, 1/8` (eighths), a score inside bin 1 -/
+example : (posteriorError ({ bins := [⟨1⟩, ⟨1/2⟩, ⟨1/8⟩], minScore := ⟨0⟩, scoreStep := ⟨1⟩ } : Estimator (RQ rnd8))
+    ⟨11/6⟩).map (·.val) = some (1/4) := by decide +kernel
 
 end Sage.C14
